@@ -94,7 +94,10 @@ theorem cmpLV_ok_sc {op : Cmp} {x : LinComb} (hb : b.isPy = true) (h : cmpLV op 
 theorem cmpV_ok_sc {op : Cmp} (ha : a.isPy = true) (hb : b.isPy = true) (h : cmpV op a b s = .ok (v, s')) :
     a.isSc = true ∧ b.isSc = true := by
   cases a with
-  | lc x => exact ⟨rfl, cmpLV_ok_sc hb (by simpa only [cmpV] using h)⟩
+  | lc x =>
+    cases b with
+    | fxp y => exact absurd hb (by simp [Val.isPy])
+    | _ => exact ⟨rfl, cmpLV_ok_sc hb (by simpa only [cmpV] using h)⟩
   | lcb x =>
     simp only [cmpV] at h
     obtain ⟨y, s1, h1, -⟩ := bind_ok.mp h
